@@ -207,6 +207,9 @@ def outcomes(spec, tag, value_srcs, input_srcs, ref_form="object", bytes_in=None
             mod = mat.modules[named["mod"]] if "mod" in named else None
             if ref_form == "qualified-string":
                 T = f"{mod.__name__}.{named['name']}"
+            elif ref_form == "qualified-string-twice":
+                # one reference which names two module-qualified types: the union of the wrapper with itself is the wrapper
+                T = f"{mod.__name__}.{named['name']} | {mod.__name__}.{named['name']}"
             elif ref_form == "nested-qualified-string":
                 # the wrapper as an attribute of a class of its module (`class Order: Id = NewType(...)`): "mod.Order.Id"
                 mod.__dict__["Ns"] = type("Ns", (), {"__module__": mod.__name__, named["name"]: mod.__dict__[named["name"]]})
@@ -328,7 +331,7 @@ def check_case(base_name, base, chain, position, data, col, counter):
     named_root = position == "root" and chain and chain[-1] in ("newtype", "alias", "stralias")
     if named_root:
         forms += ["qualified-string", "forwardref", "bare:0", "bare:1", "bare:2", "bare:5", "qualified-string@clash", "forwardref@clash",
-                  "nested-qualified-string", "nested-forwardref",
+                  "nested-qualified-string", "nested-forwardref", "qualified-string-twice",
                   "qualifier-string:ClassVar", "qualifier-string:Final"]
     if position in ("list", "dictval", "tuple", "union") and chain and chain[-1] in ("newtype", "alias", "stralias"):
         forms += ["arg-forwardref"]
